@@ -104,7 +104,6 @@ func runConcAudit(work string, idx int, in concInput) Record {
 			SecretVersion uint64  `json:"secretVersion"`
 		}
 		dec := json.NewDecoder(strings.NewReader(sc.Text()))
-		dec.DisallowUnknownFields()
 		if err := dec.Decode(&e); err != nil || dec.More() || e.ID == nil || e.Time == nil || e.Principal == nil || e.Action == nil || e.Authorized == nil {
 			rec.Direct = &DirectVerdict{OK: false, What: fmt.Sprintf("audit log line %d is not one complete record: %.200q", nlines, sc.Text())}
 			return rec
